@@ -192,9 +192,20 @@ def _evaluate(res, tag, cfg, t, t7, z, z7, m, comp_ref, stage):
                                 observed=dict(error=r.brief(), **H))
                     return True
                 fin = np.isfinite(np.asarray(xt, float))
-                if list(r.value.index) != list(x.index) or not close(
-                        np.asarray(r.value, float)[fin], np.asarray(x, float)[fin],
-                        rtol=1e-8, atol=1e-8):
+                got, want = np.asarray(r.value, float)[fin], np.asarray(x, float)[fin]
+                okrt = close(got, want, rtol=1e-9, atol=1e-9)
+                if not okrt and cfg[0] == "boxcox":
+                    # floating-point error of an ill-conditioned map: for a large fitted |lambda|
+                    # one ulp of transform(z) moves the inverse by much more than one ulp of z.
+                    # Allow 64 times the change caused by perturbing the transformed value by 1 ulp.
+                    from scipy.special import inv_boxcox
+
+                    yt = np.asarray(xt, float)[fin]
+                    lam = float(t.lambda_)
+                    spread = np.abs(inv_boxcox(np.nextafter(yt, np.inf), lam) -
+                                    inv_boxcox(np.nextafter(yt, -np.inf), lam))
+                    okrt = bool(np.all(np.abs(got - want) <= 64 * spread + 1e-9 * np.abs(want)))
+                if list(r.value.index) != list(x.index) or not okrt:
                     res.violate(tag + ":roundtrip", "inverse_transform(transform(z)) != z",
                                 expected=x, observed=dict(result=r.value, **H))
                     return True
